@@ -172,6 +172,9 @@ def run(ctx):
   plain = [n for n in gd.live_nodes() if n.kind == 'stmt' and isinstance(n.ast, ast.Assign) and u(n.ast.value) == 'cls_meta.__call__']
   subst = [n for n in gd.live_nodes() if n.kind == 'stmt' and isinstance(n.ast, ast.Assign) and isinstance(n.ast.value, ast.Call)
            and prog.resolve_call(dec, n.ast.value) == 'config._make_meta_call_wrapper']
+  if not plain or not subst:
+    raise AnalysisError('_decorate_fn_or_cls no longer chooses between `cls_meta.__call__` and `_make_meta_call_wrapper(cls)` in its own body: '
+                        'where the choice is made now cannot be read off this function')
   ok = bool(plain) and bool(subst) and all(('c', 'method_overrides', True) in fd[n.id] for n in plain) and \
       all(('c', 'method_overrides', False) in fd[n.id] for n in subst)
   ctx.check(ok, 'C13.metadata', construct(dec), 'the original-class substitution is used exactly when no registered methods need overriding',
